@@ -1,8 +1,14 @@
-"""C19 — client spec bunching preserves order and limits (hailtop/batch_client/aioclient.py::Batch._create_bunches).
+"""C19 — client spec bunching preserves order and limits (hailtop/batch_client/aioclient.py::Batch._create_bunches
+and the submission path Batch._submit that SENDS the bunches).
 
-Tie: T. The loop of `_create_bunches` is translated from the current source into coq/generated/C19/Gen.v;
-Lemmas.v proves it equal to the hand model and the three property theorems over *all* spec lists and limits.
-A differential smoke test runs the real method and the generated definition on the same inputs.
+Tie: T for `_create_bunches` (its loop is translated from the current source into coq/generated/C19/Gen.v; Lemmas.v proves
+it equal to the hand model and the three bunching theorems over *all* spec lists and limits) and X for the submission path:
+Bunches/Model.v `submit` is a hand model of _submit / _create_fast / _update_fast / _submit_job_group_bunches /
+_submit_job_bunches / _submit_job_groups / _submit_jobs / _submit_spec_bunch (the list of HTTP requests with the specs each
+body carries); SubmitLemmas.v proves that `submit` applied to the GENERATED bunching sends every spec exactly once, in order,
+groups before jobs, within the limits, for every completion order of the concurrent job requests.  The correspondence run
+drives the real Batch._submit / Batch.submit against a recording fake BatchClient (harness/impl/c19_submit.py) and compares
+the recorded requests with `submit` evaluated by vm_compute; the oracle judges the recorded requests alone.
 """
 import ast
 
@@ -15,19 +21,35 @@ COQ_PROPS = 'theories/Bunches/Props_C19.v'
 READY = True
 META = dict(
     design_ref='§5.D C19',
-    technique='Coq proof (induction over the spec list) about a model regenerated from the Python source by a fail-closed AST translator',
+    technique='Coq proof (induction over the spec list) about a model regenerated from the Python source by a fail-closed AST translator; '
+              'hand model of the submission path (which HTTP request carries which specs) proved correct on top of the generated '
+              'bunching and tied to Batch._submit by a correspondence run against a recording fake client',
     level_text='Machine-checked theorems (Coq 8.16, closed under the global context) that for every list of job-group and job specs, '
                'every byte-size function and all positive limits the bunches concatenate to groups++jobs in order, every bunch is '
                'non-empty, holds at most max_bunch_size specs and strictly fewer than max_bunch_bytesize bytes (under the code\'s own '
                'assertion that each single spec is below the byte limit). The model the theorems are about is regenerated from '
-               '_create_bunches on every run and proved equal to the hand model; the real method is run against it as a smoke test.',
+               '_create_bunches on every run and proved equal to the hand model; the real method is run against it as a smoke test. '
+               'What is SENT: four further theorems (C19_sent_exactly, C19_sent_any_completion_order, C19_sent_limits, '
+               'C19_sent_limits_any_completion_order) about the hand model Model.submit of Batch._submit composed with the GENERATED bunching: '
+               'on the fast path (create-fast / update-fast, at most one bunch) and on the slow path (job-groups/create per bunch sequentially, '
+               'then jobs/create per bunch concurrently, then commit), for a new batch or an update, the job-group payloads concatenate to '
+               'the job-group specs in order, every job spec is sent exactly once for EVERY completion order of the concurrent job requests, '
+               'every group-carrying request precedes every job-carrying request, and every request carries <= max_bunch_size specs and '
+               '< max_bunch_bytesize bytes of specs. Model.submit is NOT generated from the source: it is tied by the correspondence run '
+               '(real Batch._submit and public create_job_group/create_job + Batch.submit against a recording fake client, request by request, '
+               'small-scope grid + random + >1024-spec and >1 MiB submissions with the client\'s default limits), i.e. checked on the '
+               'explored inputs, not proved.',
     level_note='Trusted: Coq kernel; harness/translate/pyast.py (Python-ast subset -> Gallina) and the structural check that the two list '
                'comprehensions are order-preserving maps; orjson shim (json.dumps) only determines byte sizes, which the theorems quantify over.',
     partial=False,
 )
 TRUSTED = ['translator harness/translate/pyast.py (+ C19 structural checks on the two list comprehensions)',
+           'hand model Bunches/Model.v submit of the submission path, tied to Batch._submit by correspondence only (fake BatchClient '
+           'harness/impl/c19_submit.py parses each request body with orjson.loads and identifies specs by their serialised bytes)',
            'loader shim orjson->json (byte sizes only; theorems hold for every size function)']
-ASSUMPTIONS = ['specs are abstract elements with an arbitrary byte size n_bytes : A -> Z; serialisation itself is not modelled']
+ASSUMPTIONS = ['specs are abstract elements with an arbitrary byte size n_bytes : A -> Z; serialisation itself is not modelled',
+               'submission path: requests succeed (no HTTP errors / retries / cancellation); the limits theorems about requests assume '
+               'non-negative byte sizes; the byte limit is on the sum of the spec bytes (as in _create_bunches), not on the framed body']
 
 
 def _check_comprehension(stmt, target, src_name, kind):
@@ -124,6 +146,154 @@ def _run_impl(ctx, cases):
     return ctx.run_impl('c19_bunches.py', {'cases': cases})
 
 
+# ------------------------------------------------------------------------------------------------
+# the submission path (Batch._submit): cases, canonical form, oracle clauses
+
+SUBMIT_MIN = 20          # smallest serialised size of an identifiable spec {"i":<id>,"p":"..."} (harness/impl/c19_submit.py)
+
+
+def _submit_cases(ctx, n_random, n_big):
+    """dict cases for harness/impl/c19_submit.py: small-scope grid (count-driven and byte-driven bunching, new batch and
+    update), seeded random, the public API, and submissions above the client's DEFAULT limits (>1024 specs, >1 MiB)."""
+    rng = ctx.rng
+    out = []
+
+    def case(g, j, mb, ms, created, mode='specs'):
+        out.append({'g': list(g), 'j': list(j), 'mb': mb, 'ms': ms, 'created': bool(created), 'seed': len(out) * 7919 + 1, 'mode': mode})
+
+    # count-driven: every (n_groups, n_jobs) around the bunch boundaries
+    for created in (False, True):
+        for ms in (1, 2, 3, 4, 5, 8):
+            for ng in range(0, 7):
+                for nj in range(0, 10):
+                    case([SUBMIT_MIN + (i % 3) for i in range(ng)], [SUBMIT_MIN + 2 + (i % 5) for i in range(nj)], None, ms, created)
+    # byte-driven
+    for created in (False, True):
+        for mb in (41, 64, 100, 150, 400):
+            for ng in (0, 1, 2, 3, 5):
+                for nj in (0, 1, 2, 4, 9):
+                    sizes = [SUBMIT_MIN + ((i * 7 + mb) % min(mb - SUBMIT_MIN, 60)) for i in range(ng + nj)]
+                    case(sizes[:ng], sizes[ng:], mb, 1000 if (ng + nj) % 2 else 3, created)
+    # public API (create_job_group / create_job / submit): sizes are paddings
+    for created in (False, True):
+        for ms in (1, 2, 3, 5):
+            for ng, nj in ((0, 0), (0, 1), (1, 0), (1, 1), (1, 2), (2, 3), (3, 2), (4, 7), (5, 5)):
+                case([i % 4 for i in range(ng)], [i % 6 for i in range(nj)], None, ms, created, mode='api')
+    for _ in range(n_random):
+        mb = rng.choice([41, 50, 64, 100, 1000, None])
+        ms = rng.choice([1, 2, 3, 5, 7, 16, None])
+        k = rng.randint(0, 40)
+        hi = (mb or 4000) - 1
+        sizes = [rng.choice([SUBMIT_MIN, hi, max(SUBMIT_MIN, hi // 2), rng.randint(SUBMIT_MIN, hi)]) for _ in range(k)]
+        ng = rng.choice([0, k, rng.randint(0, k), rng.randint(0, k)])
+        case(sizes[:ng], sizes[ng:], mb, ms, rng.random() < 0.5)
+    # above the client's default limits (ms = mb = None): > 1024 and > 2048 specs; > 1 MiB of specs
+    big = [(1000, 1500), (1, 1024), (1024, 1), (1023, 2), (1025, 1025), (0, 2049), (2049, 0), (500, 524), (1536, 1536), (3, 3000)]
+    for t, (ng, nj) in enumerate(big[:n_big]):
+        case([SUBMIT_MIN + (i % 7) for i in range(ng)], [SUBMIT_MIN + 3 + (i % 11) for i in range(nj)], None, None, t % 2)
+    heavy = [(2, 12), (11, 11), (0, 25)]
+    for t, (ng, nj) in enumerate(heavy[:max(1, n_big // 3)]):
+        case([100_000 + i for i in range(ng)], [99_000 + 17 * i for i in range(nj)], None, None, (t + 1) % 2)
+    return out
+
+
+def _run_submit(ctx, cases):
+    return ctx.run_impl('c19_submit.py', {'cases': cases})['results']
+
+
+def _canonical_trace(res):
+    """Recorded requests as [kind, group ids, job ids] in the order they were STARTED; a maximal run of consecutive jobs/create
+    requests (they are spawned concurrently) is sorted by first job id."""
+    evs = sorted(res['events'], key=lambda e: e['s'])
+    out, run = [], []
+    for e in evs:
+        item = [e['k'], e['g'], e['j']]
+        if e['k'] == 6:
+            run.append(item)
+        else:
+            out += sorted(run, key=lambda it: it[2][:1])
+            run = []
+            out.append(item)
+    out += sorted(run, key=lambda it: it[2][:1])
+    return out
+
+
+def _submit_failures(case, res):
+    """The property on what was SENT, judged on the recorded requests alone."""
+    fails = []
+
+    def fail(key, what, expected=None):
+        fails.append(Failure(key, what, case, expected, {'error': res['error'], 'events': res['events'][:40], 'mb': res['mb'], 'ms': res['ms']}))
+
+    if res['error'] is not None:
+        # the code asserts that every single spec is below the byte limit; our cases respect it
+        fail('submit-raises', f'Batch._submit raised {res["error"]}')
+        return fails
+    ng, nj = len(res['gsizes']), len(res['jsizes'])
+    mb, ms = res['mb'], res['ms']
+    evs = sorted(res['events'], key=lambda e: e['s'])
+    sent_g = [x for e in evs for x in e['g']]
+    want_g = list(range(ng))
+    if sent_g != want_g:
+        kind = ('foreign' if any(x not in want_g for x in sent_g) else 'missing' if set(sent_g) != set(want_g)
+                else 'duplicated' if len(sent_g) != len(want_g) else 'order')
+        fail('sent-job-groups:' + kind, 'the job-group specs sent, in request order, are not the original job-group specs', want_g)
+    want_j = list(range(ng, ng + nj))
+    sent_j = [x for e in evs for x in e['j']]
+    if sorted(sent_j) != want_j:
+        kind = ('foreign' if any(x not in want_j for x in sent_j) else 'missing' if set(sent_j) != set(want_j) else 'duplicated')
+        fail('sent-jobs:' + kind, 'the job specs sent are not exactly the original job specs, each once', want_j)
+    elif any(e['j'] != list(range(e['j'][0], e['j'][0] + len(e['j']))) for e in evs if e['j']):
+        fail('sent-jobs:order', 'a request carries job specs out of their original order', want_j)
+    carriers = [e for e in evs if e['g'] or e['j'] or e['k'] in (3, 4, 5, 6)]
+    for e in carriers:
+        n = len(e['g']) + len(e['j'])
+        if n > ms or sum(e['gb']) + sum(e['jb']) >= mb or (e['k'] in (5, 6) and n == 0):
+            fail('sent-limits', 'a request is empty or carries more specs / bytes than the limits allow')
+            break
+    for a in evs:
+        if a['j'] and any(b is not a and b['g'] and (b['e'] is None or b['e'] > a['s']) for b in evs):
+            fail('sent-order:job-before-job-groups', 'a request carrying jobs was started before every request carrying job groups had completed')
+            break
+    for c in evs:
+        if c['k'] == 2 and any(b['e'] is None or b['e'] > c['s'] for b in carriers):
+            fail('sent-order:commit-before-specs', 'the update was committed before every spec-carrying request had completed')
+            break
+        if c['k'] in (0, 1) and any(b['s'] < (c['e'] or 10**9) for b in carriers if b['k'] in (5, 6)):
+            fail('sent-order:specs-before-update', 'a spec-carrying request was started before the batch/update was created')
+            break
+    return fails
+
+
+def _submit_correspond(ctx, cases, results):
+    header = ('From Coq Require Import ZArith List. Import ListNotations. From HailV Require Import Bunches.Model. '
+              'From HailG Require Import C19.Gen. Open Scope Z_scope.\n'
+              'Definition run (created : bool) (g j : list (Z * Z)) (mb ms : Z) :=\n'
+              '  map (fun '"'"'(k, a, b) => (k, map fst a, map fst b))\n'
+              '      (encode (submit_specs (fun tg tj => create_bunches (fun e : (Z * Z) * bool => snd (fst e)) tg tj mb ms) created g j)).')
+    exprs, used = [], []
+    for c, r in zip(cases, results):
+        if r['error'] is not None:
+            continue
+        ng = len(r['gsizes'])
+        ge = listlit([f'({i}, {s})' for i, s in enumerate(r['gsizes'])])
+        je = listlit([f'({ng + i}, {s})' for i, s in enumerate(r['jsizes'])])
+        exprs.append(f'run {"true" if c["created"] else "false"} {ge} {je} {r["mb"]} {r["ms"]}')
+        used.append((c, r))
+    model = coq_eval(ctx, header, exprs)
+    dis = []
+    hist = {}
+    for (c, r), m in zip(used, model):
+        canon = _canonical_trace(r)
+        path = 'fast' if any(e['k'] in (3, 4) for e in r['events']) else 'slow' if any(e['k'] == 2 for e in r['events']) else 'empty'
+        hist[path] = hist.get(path, 0) + 1
+        m = [list(x) if isinstance(x, tuple) else x for x in m]
+        m = [[k, list(a), list(b)] for k, a, b in m]
+        if m != canon:
+            dis.append(Disagreement('Model.submit~Batch._submit', c, m, canon))
+    return dis, hist, len(used)
+
+
 def correspond(ctx):
     n = ctx.scale(300, 3000)
     cases = _cases(ctx, n)
@@ -146,12 +316,26 @@ def correspond(ctx):
         if m != i:
             dis.append(Disagreement('Gen.create_bunches~Batch._create_bunches', c, m, i))
     nontrivial = sum(1 for c in distinct if len(c[0]) + len(c[1]) >= 2)
-    return Corr(evaluations=len(cases), distinct_nontrivial=nontrivial,
+    # the submission path: real Batch._submit against the recording fake client vs Model.submit on the generated bunching
+    scases = _submit_cases(ctx, ctx.scale(60, 600), ctx.scale(3, 10))
+    if not ctx.thorough:      # the model side costs ~1 ms per spec: keep every third grid case in the quick tier (the oracle runs all)
+        scases = [c for t, c in enumerate(scases) if t % 3 == 0 or len(c['g']) + len(c['j']) > 40 or c['mode'] == 'api']
+    sres = _run_submit(ctx, scases)
+    sdis, shist, sused = _submit_correspond(ctx, scases, sres)
+    snontrivial = len({(tuple(r['gsizes']), tuple(r['jsizes']), r['mb'], r['ms'], c['created']) for c, r in zip(scases, sres)
+                       if len(r['gsizes']) + len(r['jsizes']) >= 2})
+    return Corr(evaluations=len(cases) + sused, distinct_nontrivial=nontrivial + snontrivial,
                 rule='(group sizes, job sizes, max_bytes, max_size): small-scope grid + seeded random; non-trivial = at least 2 specs; '
-                     'real Batch._create_bunches (specs padded to the requested serialised size) vs generated Gallina evaluated by vm_compute',
-                samples=[{'case': c, 'bunches': i} for c, i in list(zip(cases, impl))[-3:]],
-                disagreements=dis, histograms={'n_bunches': {str(k): v for k, v in sorted(hist.items(), key=lambda kv: str(kv[0]))}},
-                names=['Gen.create_bunches~Batch._create_bunches'])
+                     'real Batch._create_bunches (specs padded to the requested serialised size) vs generated Gallina evaluated by vm_compute'
+                     ' | submission path: (group sizes, job sizes, limits, new batch/update, private _submit or public API, answer-delay seed); '
+                     'requests recorded by a fake BatchClient from the real Batch._submit / Batch.submit vs Model.submit composed with the '
+                     'generated bunching, request by request (concurrent jobs/create runs sorted by first job id)',
+                samples=[{'case': c, 'bunches': i} for c, i in list(zip(cases, impl))[-3:]]
+                        + [{'case': {k: (v if not isinstance(v, list) or len(v) < 12 else f'{len(v)} sizes') for k, v in c.items()},
+                            'requests': _canonical_trace(r)[:6]} for c, r in list(zip(scases, sres))[200:203]],
+                disagreements=dis + sdis,
+                histograms={'n_bunches': {str(k): v for k, v in sorted(hist.items(), key=lambda kv: str(kv[0]))}, 'submit_path': shist},
+                names=['Gen.create_bunches~Batch._create_bunches', 'Model.submit~Batch._submit'])
 
 
 def oracle(ctx, budget):
@@ -172,10 +356,27 @@ def oracle(ctx, budget):
             if len(b) == 0 or len(b) > ms or sum(sizes[x] for x in b) >= mb:
                 fails.append(Failure('limits', 'a bunch is empty or exceeds the count/byte limit', [g, j, mb, ms], None, res))
                 break
-    return fails, {'evaluations': len(cases), 'distinct_nontrivial': len({str(c) for c in cases if len(c[0]) + len(c[1]) >= 2}),
-                   'rule': 'oracle: concat/limits recomputed in Python on the real method output'}
+    scases = _submit_cases(ctx, ctx.scale(150, 1500) * budget, ctx.scale(6, 10))
+    sres = _run_submit(ctx, scases)
+    paths = {}
+    for c, r in zip(scases, sres):
+        fails += _submit_failures(c, r)
+        n_carry = sum(1 for e in r['events'] if e['k'] in (3, 4, 5, 6))
+        k = 'fast' if any(e['k'] in (3, 4) for e in r['events']) else f'slow:{min(n_carry, 8)}{"+" if n_carry > 8 else ""}-requests' if n_carry else 'empty'
+        paths[k] = paths.get(k, 0) + 1
+    return fails, {'evaluations': len(cases) + len(scases),
+                   'distinct_nontrivial': len({str(c) for c in cases if len(c[0]) + len(c[1]) >= 2})
+                                          + len({str(c) for c in scases if len(c['g']) + len(c['j']) >= 2}),
+                   'rule': 'oracle: concat/limits recomputed in Python on the real method output; what Batch._submit SENT to a recording fake '
+                           'client: job-group payloads in request order = job-group specs, job payloads = each job spec once and in order, '
+                           'job-carrying requests start after all group-carrying requests completed, commit last, limits per request',
+                   'histograms': {'oracle_submit_path': dict(sorted(paths.items()))}}
 
 
 def replay(ctx, doc):
     case = doc['case']
+    if isinstance(case, dict):     # a submission-path case
+        res = _run_submit(ctx, [case])[0]
+        return {'case': case, 'requests': _canonical_trace(res), 'error': res['error'],
+                'failures': [{'key': f.key, 'what': f.what} for f in _submit_failures(case, res)]}
     return {'case': case, 'impl': _run_impl(ctx, [case])['results'][0]}
